@@ -169,6 +169,28 @@ def run_degree(inst):
             S.count("degree_lookups_" + ("ascending" if d == "a" else "descending"))
             if d == "d" and asc[i - 1] != desc[-i]:
                 S.count("degree_lookups_where_directions_differ")
+    # lookups the object refuses (whether and how it refuses them is not judged) must leave the object as it was
+    for args in ((0,), (len(asc) + 5,), (len(asc) * 3, "d"), (1, "x"), (2, ""), (-1, "d")):
+        try:
+            sc.degree(*args)
+        except Exception:                                        # noqa
+            pass
+    S.trans(10)
+    fresh = make(inst)
+    after = (sc.ascending(), sc.descending(), len(sc))
+    if after != (asc, desc, len(asc)) or not (sc == fresh) or (sc != fresh):
+        S.problem("%s after refused degree() lookups: ascending, descending, len, == a fresh equal scale" % label,
+                  [asc, desc, len(asc), True], [after[0], after[1], after[2], sc == fresh])
+    else:
+        for i in (1, len(asc) - 1):
+            for d in ("a", "d"):
+                want = asc[i - 1] if d == "a" else desc[-i]
+                try:
+                    got = sc.degree(i, d)
+                except Exception as e:                           # noqa
+                    got = e
+                if got != want:
+                    S.problem("%s.degree(%d, %r) after refused lookups" % (label, i, d), want, got)
     S.outcome((inst[0], tuple(answers)))
     if inst[0] == "MelodicMinor" and inst[2] == 1:
         S.sample({"instance": inst, "degrees a/d interleaved": answers})
